@@ -1,13 +1,365 @@
-(* C12 -- proofs about the PacketTunnelIOGateway model (Gw/Tunnel.v). *)
+(* C12 -- proofs about the PacketTunnelIOGateway model (Gw/Tunnel.v), part 1:
+   constants, the wire codec (parse o encode), the receive-state table seen from one source. *)
 From Coq Require Import List Arith NArith Bool Lia.
 From Coq Require Import Strings.Byte.
 From Muscle Require Import Common.LE Gen.Consts Gw.Tunnel.
 Import ListNotations.
 Local Open Scope N_scope.
 
+(* ------------------------------------------------------------------ translated constants *)
+
 (* side conditions on the translated constants: a changed constant re-checks these *)
 Lemma FHS_val : FHS = 24.
 Proof. reflexivity. Qed.
 
+Lemma MAX_STATES_pos : 0 < MAX_STATES.
+Proof. reflexivity. Qed.
+
 Lemma lenN_enc_frag f : lenN (enc_frag f) = FHS + lenN (f_data f).
 Proof. unfold enc_frag. rewrite !lenN_app, !lenN_le32, FHS_val. lia. Qed.
+
+Lemma clamp_mtu_gt m : FHS < clamp_mtu m.
+Proof. unfold clamp_mtu. lia. Qed.
+
+(* ------------------------------------------------------------------ small list facts *)
+
+Lemma lenN_length {A} (l : list A) : N.to_nat (lenN l) = length l.
+Proof. unfold lenN. apply Nat2N.id. Qed.
+
+Lemma takeN_app_le {A} n (a b : list A) : n <= lenN a -> takeN n (a ++ b) = takeN n a.
+Proof.
+  unfold takeN, lenN. intros H. rewrite firstn_app.
+  replace (N.to_nat n - length a)%nat with 0%nat by lia. cbn. apply app_nil_r.
+Qed.
+
+Lemma takeN_app_ge {A} n (a b : list A) : lenN a <= n -> takeN n (a ++ b) = a ++ takeN (n - lenN a) b.
+Proof.
+  unfold takeN, lenN. intros H. rewrite firstn_app.
+  rewrite firstn_all2 by lia. f_equal. f_equal. lia.
+Qed.
+
+Lemma dropN_app_ge {A} n (a b : list A) : lenN a <= n -> dropN n (a ++ b) = dropN (n - lenN a) b.
+Proof.
+  unfold dropN, lenN. intros H. rewrite skipn_app.
+  rewrite skipn_all2 by lia. cbn. f_equal. lia.
+Qed.
+
+Lemma takeN_takeN {A} a b (l : list A) : takeN a (takeN b l) = takeN (N.min a b) l.
+Proof. unfold takeN. rewrite firstn_firstn. f_equal. lia. Qed.
+
+Lemma takeN_add {A} a b (l : list A) : takeN (a + b) l = takeN a l ++ takeN b (dropN a l).
+Proof.
+  unfold takeN, dropN. rewrite N2Nat.inj_add.
+  rewrite <- (firstn_skipn (N.to_nat a) l) at 1.
+  rewrite firstn_app. rewrite firstn_length.
+  destruct (Nat.le_gt_cases (N.to_nat a) (length l)) as [H|H].
+  - rewrite Nat.min_l by lia.
+    replace (N.to_nat a + N.to_nat b - N.to_nat a)%nat with (N.to_nat b) by lia.
+    rewrite firstn_all2; [reflexivity|]. rewrite firstn_length. lia.
+  - rewrite (skipn_all2 l) by lia. rewrite !firstn_nil, !app_nil_r.
+    rewrite !firstn_all2; try reflexivity; try lia. rewrite firstn_length. lia.
+Qed.
+
+Lemma lenN_repeat {A} (x : A) n : lenN (repeat x n) = N.of_nat n.
+Proof. unfold lenN. now rewrite repeat_length. Qed.
+
+Lemma lenN_junk n : lenN (junk n) = n.
+Proof. unfold junk. rewrite lenN_repeat. apply N2Nat.id. Qed.
+
+Lemma list_eq_of_takeN {A} (a b : list A) : lenN a = lenN b -> takeN (lenN a) a = takeN (lenN a) b -> a = b.
+Proof.
+  intros HL HT. rewrite takeN_all in HT by lia. rewrite HL in HT. rewrite takeN_all in HT by lia. exact HT.
+Qed.
+
+(* ------------------------------------------------------------------ wire codec *)
+
+Definition wire_ok (f : frag) : Prop :=
+  f_magic f < two32 /\ f_sex f < two32 /\ f_id f < two32 /\ f_off f < two32
+  /\ f_total f < two32 /\ lenN (f_data f) < two32.
+
+Definition sex_ok (rc : rcfg) (sex : N) : bool := (rc_sex rc =? 0) || negb (rc_sex rc =? sex).
+
+(* what the fragment loop makes of a packet that really is a sequence of encoded fragments *)
+Fixpoint accepted (rc : rcfg) (fs : list frag) : list frag :=
+  match fs with
+  | [] => []
+  | f :: fs' =>
+      if (f_magic f =? rc_magic rc) && sex_ok rc (f_sex f) then
+        if f_total f <=? rc_max_in rc then f :: accepted rc fs' else accepted rc fs'
+      else []
+  end.
+
+Lemma enc_frags_cons f fs : enc_frags (f :: fs) = enc_frag f ++ enc_frags fs.
+Proof. reflexivity. Qed.
+
+Lemma enc_frags_app a b : enc_frags (a ++ b) = enc_frags a ++ enc_frags b.
+Proof. unfold enc_frags. now rewrite map_app, concat_app. Qed.
+
+Lemma length_enc_frags fs : (length fs <= length (enc_frags fs))%nat.
+Proof.
+  induction fs as [|f fs IH]; [cbn; lia|].
+  rewrite enc_frags_cons, app_length. cbn [length].
+  pose proof (lenN_enc_frag f) as H. unfold lenN in H. rewrite FHS_val in H. lia.
+Qed.
+
+(* one iteration of the fragment loop on an encoded fragment followed by anything *)
+Lemma parse_step fuel rc f tail :
+  wire_ok f ->
+  parse (S fuel) rc (enc_frag f ++ tail) =
+    if (f_magic f =? rc_magic rc) && sex_ok rc (f_sex f) then
+      if f_total f <=? rc_max_in rc then f :: parse fuel rc tail else parse fuel rc tail
+    else [].
+Proof.
+  intros (Hm & Hs & Hi & Ho & Ht & Hd).
+  cbn [parse].
+  assert (HL : (FHS <=? lenN (enc_frag f ++ tail)) = true).
+  { apply N.leb_le. rewrite lenN_app, lenN_enc_frag. lia. }
+  rewrite HL. unfold enc_frag. rewrite <- !app_assoc.
+  rewrite rd32_le32. rewrite rd32_le32. rewrite rd32_le32. rewrite rd32_le32. rewrite rd32_le32. rewrite rd32_le32.
+  rewrite !u32_small by assumption.
+  unfold frag_ok. fold (sex_ok rc (f_sex f)).
+  assert (HC : (lenN (f_data f) <=? lenN (f_data f ++ tail)) = true).
+  { apply N.leb_le. rewrite lenN_app. lia. }
+  rewrite HC, andb_true_r.
+  rewrite takeN_app_exact, dropN_app_exact.
+  destruct f as [mg sx id off tot dat]; cbn [f_magic f_sex f_id f_off f_total f_data]. reflexivity.
+Qed.
+
+Lemma parse_nil fuel rc : parse fuel rc [] = [].
+Proof. destruct fuel; reflexivity. Qed.
+
+Lemma parse_enc rc fs : forall fuel,
+  Forall wire_ok fs -> (length fs <= fuel)%nat ->
+  parse fuel rc (enc_frags fs) = accepted rc fs.
+Proof.
+  induction fs as [|f fs IH]; intros fuel HW HF.
+  - cbn. apply parse_nil.
+  - destruct fuel as [|fuel]; [cbn in HF; lia|].
+    inversion HW as [|? ? Hf Hfs]; subst.
+    rewrite enc_frags_cons, parse_step by assumption.
+    cbn [accepted]. cbn [length] in HF.
+    rewrite IH by (assumption || lia). reflexivity.
+Qed.
+
+(* a datagram that does not start with our magic (or is too short to have one) yields no fragment *)
+Definition foreign (magic : N) (p : packet) : Prop := first_word_is magic p = false.
+
+Lemma parse_foreign fuel rc bs : first_word_is (rc_magic rc) bs = false -> parse fuel rc bs = [].
+Proof.
+  intros H. destruct fuel as [|fuel]; [reflexivity|]. cbn [parse].
+  destruct (FHS <=? lenN bs); [|reflexivity].
+  unfold first_word_is in H.
+  destruct (rd32 bs) as [[magic b1]|]; [|reflexivity].
+  destruct (rd32 b1) as [[sex b2]|]; [|reflexivity].
+  destruct (rd32 b2) as [[id b3]|]; [|reflexivity].
+  destruct (rd32 b3) as [[off b4]|]; [|reflexivity].
+  destruct (rd32 b4) as [[csz b5]|]; [|reflexivity].
+  destruct (rd32 b5) as [[total b6]|]; [|reflexivity].
+  unfold frag_ok. rewrite H. reflexivity.
+Qed.
+
+Lemma first_word_takeN magic n p : 4 <= n -> first_word_is magic (takeN n p) = first_word_is magic p.
+Proof.
+  intros Hn. unfold first_word_is, takeN.
+  destruct p as [|b0 [|b1 [|b2 [|b3 r]]]].
+  - now rewrite firstn_nil.
+  - rewrite firstn_all2 by (cbn; lia). reflexivity.
+  - rewrite firstn_all2 by (cbn; lia). reflexivity.
+  - rewrite firstn_all2 by (cbn; lia). reflexivity.
+  - destruct (N.to_nat n) as [|[|[|[|k]]]] eqn:E; try lia. cbn [firstn rd32]. reflexivity.
+Qed.
+
+(* ------------------------------------------------------------------ the table seen from one source *)
+
+Definition tbl_wf (t : table) : Prop := NoDup (map fst t).
+
+(* the evolution of one source's receive state, without the table around it *)
+Definition rs_step (o : option rstate) (f : frag) : option rstate * list msg :=
+  match o with
+  | Some rs => let '(rs', out) := accept (restart_if_new rs f) f in (Some rs', out)
+  | None =>
+      if f_off f =? 0 then
+        let '(rs', out) := accept (mkR (f_id f) 0 (junk (f_total f))) f in (Some rs', out)
+      else (None, [])
+  end.
+
+Fixpoint rs_steps (o : option rstate) (fs : list frag) : option rstate * list msg :=
+  match fs with
+  | [] => (o, [])
+  | f :: fs' =>
+      let '(o1, out1) := rs_step o f in
+      let '(o2, out2) := rs_steps o1 fs' in (o2, out1 ++ out2)
+  end.
+
+Lemma tbl_find_app a t1 t2 :
+  tbl_find a (t1 ++ t2) = match tbl_find a t1 with Some rs => Some rs | None => tbl_find a t2 end.
+Proof.
+  induction t1 as [|[b rs] t1 IH]; [reflexivity|]. cbn [app tbl_find].
+  destruct (a =? b); [reflexivity|exact IH].
+Qed.
+
+Lemma tbl_find_none_iff a t : tbl_find a t = None <-> ~ In a (map fst t).
+Proof.
+  induction t as [|[b rs] t IH]; cbn [tbl_find map fst In].
+  - tauto.
+  - destruct (N.eqb_spec a b) as [E|E].
+    + subst. split; [discriminate|]. intros H. exfalso. apply H. now left.
+    + rewrite IH. split; intros H; [intros [H1|H1]; [congruence|tauto]|tauto].
+Qed.
+
+Lemma tbl_remove_keys_incl a t b : In b (map fst (tbl_remove a t)) -> In b (map fst t).
+Proof.
+  induction t as [|[c rs] t IH]; cbn [tbl_remove map fst In]; [tauto|].
+  destruct (a =? c); cbn [map fst In]; tauto.
+Qed.
+
+Lemma tbl_remove_wf a t : tbl_wf t -> tbl_wf (tbl_remove a t).
+Proof.
+  unfold tbl_wf. induction t as [|[c rs] t IH]; cbn [tbl_remove map fst]; intros H; [exact H|].
+  inversion H as [|? ? Hn Hd]; subst.
+  destruct (a =? c); [exact Hd|]. cbn [map fst]. constructor; [|now apply IH].
+  intros Hin. apply Hn. eapply tbl_remove_keys_incl; eassumption.
+Qed.
+
+Lemma tbl_find_remove_same a t : tbl_wf t -> tbl_find a (tbl_remove a t) = None.
+Proof.
+  unfold tbl_wf. induction t as [|[c rs] t IH]; cbn [tbl_remove map fst tbl_find]; intros H; [reflexivity|].
+  inversion H as [|? ? Hn Hd]; subst.
+  destruct (N.eqb_spec a c) as [E|E].
+  - subst. now apply tbl_find_none_iff.
+  - cbn [tbl_find]. destruct (N.eqb_spec a c); [congruence|]. now apply IH.
+Qed.
+
+Lemma tbl_find_remove_other a b t : a <> b -> tbl_find b (tbl_remove a t) = tbl_find b t.
+Proof.
+  intros Hab. induction t as [|[c rs] t IH]; cbn [tbl_remove tbl_find]; [reflexivity|].
+  destruct (N.eqb_spec a c) as [E|E].
+  - subst. destruct (N.eqb_spec b c); [congruence|reflexivity].
+  - cbn [tbl_find]. destruct (b =? c); [reflexivity|exact IH].
+Qed.
+
+Lemma skipn_keys_incl {A B} n (t : list (A * B)) b : In b (map fst (skipn n t)) -> In b (map fst t).
+Proof.
+  revert t. induction n as [|n IH]; intros t; [cbn; tauto|].
+  destruct t as [|x t]; cbn [skipn map In]; [tauto|]. intros H. right. now apply IH.
+Qed.
+
+Lemma skipn_NoDup {A} n (l : list A) : NoDup l -> NoDup (skipn n l).
+Proof.
+  revert l. induction n as [|n IH]; intros l H; [exact H|].
+  destruct l as [|x l]; [exact H|]. cbn [skipn]. inversion H; subst. now apply IH.
+Qed.
+
+Lemma tbl_evict_wf t : tbl_wf t -> tbl_wf (tbl_evict t).
+Proof.
+  unfold tbl_wf, tbl_evict, dropN. intros H. rewrite <- skipn_map. now apply skipn_NoDup.
+Qed.
+
+Lemma tbl_evict_find_none a t : tbl_find a t = None -> tbl_find a (tbl_evict t) = None.
+Proof.
+  rewrite !tbl_find_none_iff. intros H Hin. apply H.
+  unfold tbl_evict, dropN in Hin. eapply skipn_keys_incl; eassumption.
+Qed.
+
+Lemma tbl_evict_small t : lenN t <= MAX_STATES -> tbl_evict t = t.
+Proof. unfold tbl_evict. intros H. replace (lenN t - MAX_STATES) with 0 by lia. apply dropN_0. Qed.
+
+(* eviction keeps an entry or loses it; it never alters one *)
+Lemma tbl_evict_find a t : tbl_wf t -> tbl_find a (tbl_evict t) = tbl_find a t \/ tbl_find a (tbl_evict t) = None.
+Proof.
+  unfold tbl_evict, dropN. generalize (N.to_nat (lenN t - MAX_STATES)) as n.
+  intros n. revert t. induction n as [|n IH]; intros t Hwf; [left; reflexivity|].
+  destruct t as [|[c rs] t]; [left; reflexivity|].
+  cbn [skipn tbl_find]. unfold tbl_wf in Hwf. cbn [map fst] in Hwf. inversion Hwf as [|? ? Hn Hd]; subst.
+  destruct (N.eqb_spec a c) as [E|E].
+  - subst. right. apply tbl_find_none_iff. intros Hin. apply Hn. eapply skipn_keys_incl; eassumption.
+  - now apply IH.
+Qed.
+
+Lemma app_keys_wf t a (rs : rstate) : tbl_wf t -> tbl_find a t = None -> tbl_wf (t ++ [(a, rs)]).
+Proof.
+  unfold tbl_wf. intros Hwf Hn. rewrite map_app. cbn [map fst].
+  apply tbl_find_none_iff in Hn.
+  induction (map fst t) as [|x l IH]; cbn [app].
+  - constructor; [intros []|constructor].
+  - inversion Hwf; subst. constructor.
+    + rewrite in_app_iff. cbn [In]. intros [H|[H|[]]]; [tauto|]. subst. apply Hn. now left.
+    + apply IH; [assumption|]. intros H. apply Hn. now right.
+Qed.
+
+(* recv_frag = rs_step on the source's own entry ... *)
+Lemma recv_frag_own t a f :
+  tbl_wf t ->
+  let '(t', out) := recv_frag t a f in
+  let '(o', out') := rs_step (tbl_find a t) f in
+  tbl_wf t' /\ tbl_find a t' = o' /\ out = out'.
+Proof.
+  intros Hwf. unfold recv_frag, rs_step.
+  destruct (tbl_find a t) as [rs|] eqn:Hf.
+  - destruct (accept (restart_if_new rs f) f) as [rs' out] eqn:Ha.
+    split; [|split; [|reflexivity]].
+    + apply app_keys_wf; [now apply tbl_remove_wf|now apply tbl_find_remove_same].
+    + rewrite tbl_find_app, tbl_find_remove_same by assumption. cbn [tbl_find]. now rewrite N.eqb_refl.
+  - destruct (f_off f =? 0).
+    + destruct (accept (mkR (f_id f) 0 (junk (f_total f))) f) as [rs' out] eqn:Ha.
+      split; [|split; [|reflexivity]].
+      * apply app_keys_wf; [now apply tbl_evict_wf|now apply tbl_evict_find_none].
+      * rewrite tbl_find_app, tbl_evict_find_none by assumption. cbn [tbl_find]. now rewrite N.eqb_refl.
+    + split; [now apply tbl_evict_wf|]. split; [now apply tbl_evict_find_none|reflexivity].
+Qed.
+
+(* ... and for every other source the entry is kept as it is, or lost (evicted), never altered *)
+Lemma recv_frag_other t a b f :
+  tbl_wf t -> a <> b ->
+  tbl_find b (fst (recv_frag t a f)) = tbl_find b t \/ tbl_find b (fst (recv_frag t a f)) = None.
+Proof.
+  intros Hwf Hab. unfold recv_frag.
+  destruct (tbl_find a t) as [rs|] eqn:Hf.
+  - destruct (accept (restart_if_new rs f) f) as [rs' out]. cbn [fst].
+    left. rewrite tbl_find_app, tbl_find_remove_other by assumption.
+    destruct (tbl_find b t); [reflexivity|]. cbn [tbl_find].
+    destruct (N.eqb_spec b a); [congruence|reflexivity].
+  - assert (HE : forall t2, tbl_find b t2 = None ->
+                 tbl_find b (tbl_evict t ++ t2) = tbl_find b t \/ tbl_find b (tbl_evict t ++ t2) = None).
+    { intros t2 H2. rewrite tbl_find_app.
+      destruct (tbl_evict_find b t Hwf) as [E|E]; rewrite E.
+      - left. destruct (tbl_find b t); [reflexivity|exact H2].
+      - right. exact H2. }
+    destruct (f_off f =? 0).
+    + destruct (accept (mkR (f_id f) 0 (junk (f_total f))) f) as [rs' out]. cbn [fst].
+      apply HE. cbn [tbl_find]. destruct (N.eqb_spec b a); [congruence|reflexivity].
+    + cbn [fst]. specialize (HE [] eq_refl). now rewrite app_nil_r in HE.
+Qed.
+
+Lemma recv_frags_own t a fs :
+  tbl_wf t ->
+  let '(t', out) := recv_frags t a fs in
+  let '(o', out') := rs_steps (tbl_find a t) fs in
+  tbl_wf t' /\ tbl_find a t' = o' /\ out = out'.
+Proof.
+  revert t. induction fs as [|f fs IH]; intros t Hwf.
+  - cbn. auto.
+  - cbn [recv_frags rs_steps].
+    pose proof (recv_frag_own t a f Hwf) as H1.
+    destruct (recv_frag t a f) as [t1 o1]. destruct (rs_step (tbl_find a t) f) as [r1 p1].
+    destruct H1 as (Hwf1 & Hf1 & Ho1). subst.
+    specialize (IH t1 Hwf1).
+    destruct (recv_frags t1 a fs) as [t2 o2]. destruct (rs_steps (tbl_find a t1) fs) as [r2 p2].
+    destruct IH as (Hwf2 & Hf2 & Ho2). subst. auto.
+Qed.
+
+Lemma recv_frags_other t a b fs :
+  tbl_wf t -> a <> b ->
+  tbl_find b (fst (recv_frags t a fs)) = tbl_find b t \/ tbl_find b (fst (recv_frags t a fs)) = None.
+Proof.
+  intros Hwf Hab. revert t Hwf. induction fs as [|f fs IH]; intros t Hwf.
+  - left. reflexivity.
+  - cbn [recv_frags].
+    pose proof (recv_frag_own t a f Hwf) as H1.
+    pose proof (recv_frag_other t a b f Hwf Hab) as H2.
+    destruct (recv_frag t a f) as [t1 o1]. destruct (rs_step (tbl_find a t) f) as [r1 p1].
+    destruct H1 as (Hwf1 & _ & _). cbn [fst] in H2.
+    specialize (IH t1 Hwf1).
+    destruct (recv_frags t1 a fs) as [t2 o2]. cbn [fst] in *.
+    destruct IH as [E|E]; [|right; exact E]. rewrite E. exact H2.
+Qed.
